@@ -25,7 +25,7 @@ func c02Cfg(excluded *int) gen.Cfg {
 	cfg.MaxReaders = 6
 	cfg.ReaderBoost = 3
 	cfg.CommitWeight = 35
-	cfg.Faults = 3 // commits that fail on an injected write/sync/truncate error are "roll backs" too
+	cfg.Faults = 3      // commits that fail on an injected write/sync/truncate error are "roll backs" too
 	cfg.MidReaders = 20 // readers begun from inside a commit: while the writer stands at one of its I/O calls
 	return cfg
 }
